@@ -50,8 +50,8 @@ func runC04(c *Ctx) {
 			worker := StaticFunc(&g.Call)
 			c.Check("C04.D", "poll:go-starts-worker", p, g.Pos(), worker != nil && FuncName(worker) == "agent.processOneRequest", "the go statement starts processOneRequest", "the go statement does not start processOneRequest directly")
 			var key ssa.Value
-			if len(PArgs(&g.Call)) == 4 {
-				key = PArgs(&g.Call)[3]
+			if len(PArgs(&g.Call)) >= 4 {
+				key = PArgs(&g.Call)[3] // the pinned fourth parameter (request ID); added parameters follow
 			}
 			// guarded by !ok of Get(cache, key)
 			guarded := false
